@@ -789,7 +789,8 @@ func (r *Resource) MatchAny(other *Resource) bool {
 		return false
 	}
 	if r == other {
-		return true
+		// same object: every type matches, an empty resource has no type to match
+		return len(r.Resources) > 0
 	}
 	for k := range r.Resources {
 		if _, ok := other.Resources[k]; ok {
